@@ -60,25 +60,25 @@ def chunkBy (b : Nat) (n : Nat) : List Nat :=
 
 mutual
 /-- Replica of `recurse` with the float split positions (sensitivity probe only). -/
-def recurseF (dim : Nat) (key : Nat → Nat → Int) (ws : Array Nat) : Scheme → Nat → List Nat → Option Hier
+def recurseF (sort : (Nat → Int) → List Nat → List Nat) (dim : Nat) (key : Nat → Nat → Int) (ws : Array Nat) : Scheme → Nat → List Nat → Option Hier
   | .mk 0 _ _ _, _, perm => some (.leaf perm)
   | .mk (_ + 1) mods den next, coord, perm =>
-    let sorted := isort (key coord) perm
+    let sorted := sort (key coord) perm
     let pos := splitF (sorted.map (fun i => ws.getD i 0)) mods den
     match splitMany sorted pos with
     | none => none
     | some subs =>
       match next with
       | none => none
-      | some cs => (recurseListF dim key ws cs ((coord + 1) % dim) subs).map .node
-def recurseListF (dim : Nat) (key : Nat → Nat → Int) (ws : Array Nat) : List Scheme → Nat → List (List Nat) → Option (List Hier)
+      | some cs => (recurseListF sort dim key ws cs ((coord + 1) % dim) subs).map .node
+def recurseListF (sort : (Nat → Int) → List Nat → List Nat) (dim : Nat) (key : Nat → Nat → Int) (ws : Array Nat) : List Scheme → Nat → List (List Nat) → Option (List Hier)
   | [], _, _ => some []
   | _ :: _, _, [] => some []
   | c :: cs, coord, p :: ps =>
-    match recurseF dim key ws c coord p with
+    match recurseF sort dim key ws c coord p with
     | none => none
     | some h =>
-      match recurseListF dim key ws cs coord ps with
+      match recurseListF sort dim key ws cs coord ps with
       | none => none
       | some hs => some (h :: hs)
 end
@@ -151,7 +151,7 @@ def handleMj (dim parts maxIter n : Nat) (ws : List Nat) (coords : List Int) : S
     | some h, some h1, some h2 =>
       let leaves := h.leaves
       if leaves != h1.leaves || leaves != h2.leaves then "model-chunk-dependent" else
-      match recurseF dim key ws.toArray s 0 perm with
+      match recurseF isort dim key ws.toArray s 0 perm with
       | none => "skip float-sensitive"
       | some hf =>
         if hf.leaves != leaves then "skip float-sensitive"
@@ -190,6 +190,122 @@ def splitManyPanic : Nat → Nat → List Nat → String
     else if restLen < pos - drained then "panic mid > len"
     else splitManyPanic (restLen - (pos - drained)) pos ps
 
+
+/-! ## Large / corner stream: `mjl <D> <threads> <parts> <maxiter> <n> <cshape> <wshape> <seed> <cmp>`
+
+The input is generated from the seed by the same integer recipe on both sides (LCG mod 2^64,
+Fisher–Yates), so the op line stays short.  Output: `ok idsh <n> <hash of the canonical ids>`
+(coordinates pairwise distinct per axis), `ok loads …` (ties, uniform weights), `ok ties`. -/
+
+def lcgNext (s : UInt64) : UInt64 := s * 6364136223846793005 + 1442695040888963407
+def lcgOut (s : UInt64) : Nat := (s >>> 33).toNat
+
+def lcgPerm (n : Nat) (s0 : UInt64) : Array Int × UInt64 := Id.run do
+  let mut a : Array Int := (Array.range n).map Int.ofNat
+  let mut s := s0
+  for k in [0:n - 1] do
+    let i := n - 1 - k
+    s := lcgNext s
+    let j := lcgOut s % (i + 1)
+    a := a.swapIfInBounds i j
+  return (a, s)
+
+def genAxis (n cshape axis : Nat) (s : UInt64) : Array Int × UInt64 :=
+  let gridR := if cshape == 1 || cshape == 3 then 4096 else 8192
+  match cshape with
+  | 1 | 2 =>
+    ((Array.range n).map (fun i => Int.ofNat (if axis == 0 then i % gridR else if axis == 1 then i / gridR else i % 5)), s)
+  | 3 | 4 =>
+    if axis == 0 then
+      let rows := n / gridR + 1
+      ((Array.range n).map (fun i => Int.ofNat ((i % gridR) * rows + i / gridR)), s)
+    else if axis == 1 then ((Array.range n).map Int.ofNat, s)
+    else lcgPerm n s
+  | 5 =>
+    if axis == 0 then
+      let h := n / 2
+      ((Array.range n).map (fun i => Int.ofNat (if i < h then 2 * i else 2 * (i - h) + 1)), s)
+    else lcgPerm n s
+  | _ => lcgPerm n s
+
+def skewL (n : Nat) : Nat :=
+  if n ≥ 8192 && n % 8192 != 0 then (n / 8192) * 8192 else n - (n / 8 + 1)
+
+def genWeights (n wshape : Nat) (xs : Array Int) (s0 : UInt64) : Array Nat := Id.run do
+  match wshape with
+  | 1 =>
+    let mut s := s0
+    let mut w : Array Nat := Array.mkEmpty n
+    for _ in [0:n] do
+      s := lcgNext s
+      w := w.push (1 + lcgOut s % 9)
+    return w
+  | 2 =>
+    -- heavy where the rank along x (ties by index) lies in the last partial block of 8192
+    let order := (Array.range n).qsort (fun a b =>
+      let xa := xs.getD a 0
+      let xb := xs.getD b 0
+      xa < xb || (xa == xb && a < b))
+    let mut w : Array Nat := Array.replicate n 1
+    let l := skewL n
+    for r in [l:n] do
+      w := w.setIfInBounds (order.getD r 0) n
+    return w
+  | 3 => return (Array.range n).map (fun i => if i ≥ skewL n then n else 1)
+  | 4 =>
+    let mut s := s0
+    let mut w : Array Nat := Array.mkEmpty n
+    for _ in [0:n] do
+      s := lcgNext s
+      w := w.push (2 ^ 45 + lcgOut s * 2 ^ 15)
+    return w
+  | _ => return Array.replicate n 1
+
+def hashIds (ids : List Nat) : Nat :=
+  ids.foldl (fun h i => (h * 1000003 + i + 1) % (2 ^ 61 - 1)) 0
+
+def msort (k : Nat → Int) (l : List Nat) : List Nat := l.mergeSort (fun a b => decide (k a ≤ k b))
+
+/-- `cmp = 0`: the harness asks for the oracle only (the weight lookups of the list model are
+linear, so the model takes about 3 s at 20 000 elements and half a minute at 70 000). -/
+def handleMjl (dim parts maxIter n cshape wshape seed cmp : Nat) : String := Id.run do
+  let mut s := lcgNext (UInt64.ofNat seed)
+  let mut axes : Array (Array Int) := #[]
+  for c in [0:dim] do
+    let (a, s') := genAxis n cshape c s
+    axes := axes.push a
+    s := s'
+  let wsA := genWeights n wshape (axes.getD 0 #[]) s
+  let ws := wsA.toList
+  let key : Nat → Nat → Int := fun c i => (axes.getD c #[]).getD i 0
+  let distinct := (List.range dim).all (fun c => distinctInts (axes.getD c #[]).toList)
+  let uniform := match ws with
+    | [] => true
+    | w :: rest => rest.all (· == w)
+  if cmp == 0 then return "skip large-n (oracle only)"
+  match scheme froot parts maxIter with
+  | none => return (if parts = 0 then "panic divisor of zero" else "panic")
+  | some sch =>
+    if !rootOkRec parts maxIter then return "root-hypothesis-violated"
+    let perm := List.range n
+    match recurse {} msort (chunkBy 8192) dim key ws sch 0 perm with
+    | none => return "panic"
+    | some h =>
+      let leaves := h.leaves
+      match recurseF msort dim key wsA sch 0 perm with
+      | none => return "skip float-sensitive"
+      | some hf =>
+        if hf.leaves != leaves then return "skip float-sensitive"
+        if distinct then
+          let ids := (leaves.zipIdx).foldl
+            (fun (a : Array Nat) lk => lk.1.foldl (fun a i => a.setIfInBounds i lk.2) a)
+            (Array.replicate n (2 ^ 64 - 1))
+          return "ok idsh " ++ toString n ++ " " ++ toString (hashIds (canon ids.toList))
+        else if uniform then
+          let loads := leaves.map (fun l => (l.map (fun i => wsA.getD i 0)).sum)
+          return withNats "ok loads" (loads.toArray.qsort (· < ·)).toList
+        else return "ok ties"
+
 def handle (toks : List String) : String :=
   match toks with
   | "mj" :: d :: _threads :: parts :: mi :: n :: rest =>
@@ -203,6 +319,12 @@ def handle (toks : List String) : String :=
       if rest.isEmpty && (d == 2 || d == 3) then some (d, parts, mi, n, ws, cs) else none) with
     | none => "bad-op"
     | some (d, parts, mi, n, ws, cs) => handleMj d parts mi n ws cs
+  | ["mjl", d, _threads, parts, mi, n, cshape, wshape, seed, cmp] =>
+    match parseNat? d, parseNat? parts, parseNat? mi, parseNat? n, parseNat? cshape, parseNat? wshape,
+        parseNat? seed, parseNat? cmp with
+    | some d, some parts, some mi, some n, some cshape, some wshape, some seed, some cmp =>
+      if d == 2 || d == 3 then handleMjl d parts mi n cshape wshape seed cmp else "bad-op"
+    | _, _, _, _, _, _, _, _ => "bad-op"
   | "split" :: _threads :: den :: k :: rest =>
     match (do
       let den ← parseNat? den
